@@ -25,6 +25,27 @@ def run(fx, rep, tier):
     rule_fifty(fx, rep)
     rule_repkey(fx, rep)
     rule_callers(fx, rep)
+    rule_clock(fx, rep)
+
+
+def rule_clock(fx, rep):
+    """Both the fifty-move rule and the repetition window are defined by the halfmove clock "since the last capture or pawn
+    move": make_move must reset it exactly then and count otherwise. This is the clock clause of C02-FORWARD, reported here
+    under C11 because it is a premise of this property (seed C11-3)."""
+    import core
+    import pC02
+    sub = type(rep)(rep.prop, rep.tier)
+    q = core.QUIET
+    core.QUIET = True
+    try:
+        pC02.rule_forward(fx, sub)
+    finally:
+        core.QUIET = q
+    vs = [v for v in sub.violations if v["key"] == "C02-FORWARD/clock"]
+    for v in vs:
+        rep.violation("C11-CLOCK", "C11-CLOCK/reset", v["msg"] + " (so the fifty-move count and the repetition window no longer follow the game history)", v["site"])
+    rep.obligation(not vs)
+    rep.rule("C11-CLOCK", 1, 1, not vs, "halfmove clock reset exactly on captures and pawn moves (shared with C02-FORWARD)")
 
 
 # ---- C11-MATERIAL --------------------------------------------------------------------------
@@ -393,6 +414,8 @@ def rule_callers(fx, rep):
 
 G = "src/chess/game.rs"
 MUTANTS = [
+    {"name": "promotion no longer resets the halfmove clock (seed C11-3)", "expect": "C11-CLOCK",
+     "edits": [(G, "        if maybe_captured_piece.is_some() || moved_piece.kind == PieceKind::Pawn {", "        if maybe_captured_piece.is_some() || (moved_piece.kind == PieceKind::Pawn && mv.promotion().is_none()) {")]},
     {"name": "king and two minors versus king with a pawn counted as dead", "expect": "C11-MATERIAL",
      "edits": [(G, "            3 => (self.board.all_knights() | self.board.all_bishops()).any(),", "            3 => true,")]},
     {"name": "five men with three knights declared dead", "expect": "C11-MATERIAL",
